@@ -101,6 +101,10 @@ def run_case(case):
             for k_ in range(case.get("pre_buckets", 0)):  # so that the bucket's row id is not the same in every store of this process
                 stores.create_bucket(ds, f"other{k_}")
             b = stores.create_bucket(ds, "b1", name="nm", **kw)
+            gone = None
+            if case.get("rejected_bulk"):  # a handle that has gone stale before anything is inserted (bucket operations commit)
+                gone = stores.create_bucket(ds, "gone")
+                ds.delete_bucket("gone")
         objs = []
         for i, s in enumerate(specs):
             e = stores.mk_event(Event, s)
@@ -132,8 +136,6 @@ def run_case(case):
             # an operation that is rejected (bulk insert through the handle of a bucket that no longer exists) must not take
             # earlier accepted inserts with it
             try:
-                gone = stores.create_bucket(ds, "gone")
-                ds.delete_bucket("gone")
                 gone.insert([stores.mk_event(Event, specs[0]), stores.mk_event(Event, specs[0])])
             except Exception:
                 pass
